@@ -1010,7 +1010,7 @@ int32 psX509ParseCRL(psPool_t *pool, psX509Crl_t **crl, unsigned char *crlBin,
     p += timelen;   /* Move p beyond thisUpdate TIME. */
 
     /* nextUpdateTIME - Optional... but required by spec */
-    if ((end - p) < 1 || ((*p == ASN_UTCTIME) || (*p == ASN_GENERALIZEDTIME)))
+    if ((end - p) >= 1 && ((*p == ASN_UTCTIME) || (*p == ASN_GENERALIZEDTIME)))
     {
         lcrl->nextUpdateType = timetag = *p;
         p++;
@@ -1049,6 +1049,12 @@ int32 psX509ParseCRL(psPool_t *pool, psX509Crl_t **crl, unsigned char *crlBin,
     }
 
     /* Need to see if any data left in tbsCertList.  Could be no revocations */
+    if ((uint32_t) (p - start) > tbsCertLen)
+    {
+        psTraceCrypto("TBSCertList fields exceed its length in psX509ParseCRL\n");
+        psX509FreeCRL(lcrl);
+        return PS_PARSE_FAIL;
+    }
     if ((p - start) != tbsCertLen)
     {
         /*
